@@ -337,6 +337,68 @@ func runCopies() {
 			}
 		}
 	}
+	// ---- the merged, sorted view of one list: GetRegisters hands out a list too ----
+	renderRegs := func(rs []veregister.Register) string {
+		var sb strings.Builder
+		for _, r := range rs {
+			if r == nil {
+				sb.WriteString("<nil>;")
+				continue
+			}
+			fmt.Fprintf(&sb, "%d:%s,%s,%s,%d,%d,%v,%v;", r.Type(), r.Category(), r.Name(), r.Description(), r.Sort(), r.Address(), r.Static(), r.Writable())
+		}
+		return sb.String()
+	}
+	for step := 0; step < 6; step++ {
+		for _, p := range prods {
+			rl, _ := veregister.GetRegisterListByProduct(p)
+			g := rl.GetRegisters()
+			base := renderRegs(g)
+			mut := ""
+			switch step {
+			case 0:
+				for i := range g {
+					g[i] = nil
+				}
+				mut = "overwrite every entry with nil"
+			case 1:
+				for i, j := 0, len(g)-1; i < j; i, j = i+1, j-1 {
+					g[i], g[j] = g[j], g[i]
+				}
+				mut = "reverse in place"
+			case 2:
+				kept := g[:0]
+				for _, r := range g {
+					if r != nil && r.Static() {
+						kept = append(kept, r)
+					}
+				}
+				for i := len(kept); i < len(g); i++ {
+					g[i] = nil
+				}
+				mut = "filter in place (kept := regs[:0])"
+			case 3:
+				if len(g) > 2 {
+					g = append(g[:1], g[2:]...)
+				}
+				mut = "delete the second entry in place"
+			case 4:
+				if len(g) > 1 {
+					g = append(g, g[0])
+					g[0] = g[len(g)-2]
+				}
+				mut = "append and overwrite the first entry"
+			default:
+				sort.Slice(g, func(i, j int) bool { return g[i] != nil && g[j] != nil && g[i].Name() > g[j].Name() })
+				mut = "sort by name in place"
+			}
+			c.expect(fmt.Sprintf("GetRegisters() of the list of %#x", uint16(p)), mut+" on the slice returned earlier", renderRegs(rl.GetRegisters()), base)
+			cp := rl
+			c.expect(fmt.Sprintf("GetRegisters() of a copy of the list of %#x", uint16(p)), mut+" on the slice returned earlier", renderRegs(cp.GetRegisters()), base)
+			y, _ := veregister.GetRegisterListByProduct(p)
+			c.expect(fmt.Sprintf("GetRegisterListByProduct(%#x).GetRegisters()", uint16(p)), mut+" on the slice returned by an earlier list", renderRegs(y.GetRegisters()), base)
+		}
+	}
 	// ---- family lists appended into a caller's list ----
 	famBase := func() string {
 		rl := veregister.NewRegisterList()
